@@ -125,6 +125,11 @@ RULE = ('type-directed: the element type (int / list / tuple) is tracked through
         'CheckError). (R6) quantifier: random chains up to length 3 (quick) / 4 (thorough), exhaustive up to 2 / 3 (+4 on one source); '
         '"infinite" sources are 40 items followed by a Budget exception. (R7) laziness is checked as pulls <= the least prefix that '
         'determines the answer (data-dependent); equality of pull counts with the model is part of the correspondence. '
+        '(R8) a consumer that catches an exception and calls next() again on the same iterator (events cases: n pulls, every exception '
+        'caught): the itertools composition is made of map / filter / takewhile / dropwhile OBJECTS, which go on with the next '
+        'element, and of generators / islice / chain, which are finished by the first exception that reaches them; every stage kind '
+        'whose function can raise (map, filter, base subspec, takewhile / dropwhile predicates, unique key, callable split separator, '
+        'flatten) raising mid-stream, alone, below and above every other stage kind; events, pulls per event and the source afterwards. '
         'distinct = distinct (spec, source, k, mode / schedule)')
 TRUSTED = ["itertools (islice, takewhile, dropwhile, chain, map, filter, tee, zip): modelled from documentation/observed behaviour, "
            "validated only by the correspondence",
@@ -145,6 +150,8 @@ ASSUMPTIONS = ['stream elements are None, ints, bools, integral floats, strings,
                'at its end is not asked beyond its last item',
                'reuse and streams cases use stages whose callbacks do not raise inside glomit (limit(-1), windowed(-1) are '
                'exercised by the args cases, where the timing is modelled by runTakeG)',
+               'pulling on after an exception that passed through a windowed stage is not modelled (zip(*tees) goes on with its tees '
+               'out of step: windows like (4, 4)); events cases have no windowed stage',
                'in streams cases every stream has its own source object (a source shared by suspended iterators is the reuse class); '
                'a stream that has ended is not asked again']
 
@@ -591,6 +598,8 @@ def run_impl(case):
         return run_boltons(case)
     if case.get('kind') == 'args':
         return run_args(case)
+    if case.get('kind') == 'events':
+        return run_events(case)
     cat = catalogue()
     src, k = case['src'], case['k']
     sk, r = case.get('srckind', 'gen'), case.get('R', R_DEFAULT)
@@ -833,6 +842,96 @@ def args_sweep(tier):
                         continue
                     yield {'kind': 'args', 'pre': pre, 'op': op, 'post': post, 'src': src, 'k': (0, 2, 9)[n % 3],
                            'mode': 'all' if n % 4 == 0 else 'take', 'srckind': SRCKINDS[n % 3]}
+
+
+# ----------------------------------------------------------------------------- a consumer that goes on after exceptions
+
+def run_events(case):
+    """it = glom(source, spec); then n times next(it) — a skip-bad-rows loop: an exception is caught, recorded, and the
+    loop goes on with the SAME iterator.  Every event with the number of source items handed out so far."""
+    import glom
+    cat = catalogue()
+    st = SrcState()
+    source = make_source(case['src'], st, case.get('srckind', 'gen'))
+    spec = chain(base_iter(case, cat), case['ops'], cat)
+    out = dict(case)
+    try:
+        it = glom.glom(source, spec)
+    except Exception as e:
+        out['impl'] = {'open': {'raised': exc_name(e)}, 'open_pulls': st.pulled, 'events': [],
+                       'src_after': {'rest': [], 'ended': False, 'closed': st.closed}}
+        return out
+    obs = []
+    for _ in range(case['n']):
+        try:
+            obs.append({'item': enc(next(it)), 'pulls': st.pulled})
+        except StopIteration:
+            obs.append({'end': 'exhausted', 'pulls': st.pulled})
+            break
+        except Exception as e:
+            obs.append({'raised': exc_name(e), 'pulls': st.pulled})
+    out['impl'] = {'open': 'ok', 'open_pulls': 0, 'events': obs,
+                   'src_after': probe(source, st, case['src'], case.get('R', R_DEFAULT))}
+    return out
+
+
+RAISING = ['bad3', 'inc', 'lt3', 'length', 'head', 'rng']      # raise for some items (bad3: ValueError at 3; the others on ill-typed items)
+
+
+def gen_events_case(rng):
+    """a chain without windowed stages in which some stage raises for some items (a function that rejects 3, ill-typed
+    items, a flatten over scalars, an unhashable key), pulled on after every exception"""
+    items = [rng.choice([1, 2, 3, 4, 5, 3, 0, None, 7]) for _ in range(rng.randint(0, 9))]
+    case = {'kind': 'events', 'sub': 'T', 'sentinel': None, 'ops': []}
+    r = rng.random()
+    if r < 0.2:
+        case['sub'] = rng.choice(['bad3', 'inc', 'skip_odd', 'stop_ge4'])
+    elif r < 0.3:
+        case['sentinel'] = {'v': jv(rng.choice([0, 4, None]))}
+    for _ in range(rng.choice([1, 1, 2, 2, 3])):
+        while True:
+            if rng.random() < 0.55:
+                kind = rng.choice(['map', 'filter', 'takewhile', 'dropwhile', 'unique'])
+                op = {'op': kind, 'f': rng.choice(RAISING)}
+            elif rng.random() < 0.15:
+                op = {'op': 'split', 'sep': {'fn': rng.choice(['bad3', 'lt3', 'inc'])}}
+            else:
+                op = gen_op(rng, 'int', rng.random() < 0.3)[0]
+            if op['op'] != 'windowed' and (op.get('sep') or {}).get('fn') not in ('T', 'head'):
+                break
+        case['ops'].append(op)
+    case['src'] = {'fin': [jv(x) for x in items], 'tail': rng.choice([None, None, None, 'KeyError'])}
+    case['n'] = len(items) + 3
+    case['srckind'] = gen_srckind(rng)
+    case['R'] = rng.choice([0, 1, 2])
+    return case
+
+
+def events_sweep(tier):
+    """every stage kind whose function can raise (map, filter, the base subspec, takewhile / dropwhile predicates, the unique
+    key, a callable split separator, flatten) raising in the middle of the stream, alone, BELOW every other stage kind and ABOVE
+    a raising map; pulled to the end"""
+    firsts = [('T', {'op': 'map', 'f': 'bad3'}), ('T', {'op': 'filter', 'f': 'bad3'}), ('bad3', None),
+              ('T', {'op': 'takewhile', 'f': 'bad3'}), ('T', {'op': 'dropwhile', 'f': 'bad3'}),
+              ('T', {'op': 'unique', 'f': 'bad3'}), ('T', {'op': 'split', 'sep': {'fn': 'bad3'}}),
+              ('T', {'op': 'map', 'f': 'inc'}), ('T', {'op': 'flatten'})]
+    seconds = [None, {'op': 'map', 'f': 'T'}, {'op': 'map', 'f': 'dbl'}, {'op': 'filter', 'f': 'one'}, {'op': 'takewhile', 'f': 'one'},
+               {'op': 'dropwhile', 'f': 'zero'}, {'op': 'limit', 'n': 5}, {'op': 'slice', 'a': [0, None, 2]},
+               {'op': 'chunked', 'size': 2}, {'op': 'unique'}, {'op': 'split', 'sep': {'scalar': jv(5)}},
+               {'op': 'map', 'f': 'wrap'}, {'op': 'map', 'f': 'bad3'}]
+    srcs = [[1, 2, 3, 4, 5, 3, 6], [3, 3, 1], [1, None, 2, 3, 4], [[1], 2, [3, 4]], []]
+    n = 0
+    for sub, op in firsts:
+        for sec in seconds:
+            for xs in srcs if tier != 'quick' else srcs[:3]:
+                for order in (0, 1):
+                    n += 1
+                    ops = [o for o in ((op, sec) if order == 0 else (sec, op)) if o is not None]
+                    if order == 1 and (sec is None or op is None):
+                        continue
+                    yield {'kind': 'events', 'sub': sub, 'sentinel': None, 'ops': ops,
+                           'src': {'fin': [jv(x) for x in xs], 'tail': 'KeyError' if n % 7 == 0 else None},
+                           'n': len(xs) + 3, 'srckind': SRCKINDS[n % 3], 'R': n % 3}
 
 
 # ----------------------------------------------------------------------------- boltons' helpers, called directly
@@ -1610,6 +1709,7 @@ def exhaustive(tier):
     yield from catalogue_sweep(tier)
     yield from boltons_sweep(tier)
     yield from args_sweep(tier)
+    yield from events_sweep(tier)
     yield from streams_sweep(tier)
     if tier == 'quick':
         plan = [(0, EXH_SOURCES[:2], [0, 1, 2, 3, 4, 5, 6], DEFAULT_OPS),
@@ -1672,6 +1772,8 @@ def generate(rng, tier, scale, **focus):
             yield gen_streams_case(rng)
         elif i % 16 == 14:
             yield gen_boltons_case(rng)
+        elif i % 16 == 9 or (focus.get('events') and i % 4 == 0):
+            yield gen_events_case(rng)
         else:
             yield gen_iter_case(rng, maxlen, focus)
     if not focus:
@@ -1692,7 +1794,7 @@ def corpus():
 def key(case):
     return {k: case.get(k) for k in ('kind', 'sub', 'sentinel', 'p', 'e1', 'e2', 'src', 'k', 'mode', 'target',
                                      'srckind', 'R', 'pipes', 'form', 'steps', 'base', 'derived', 'streams',
-                                     'events', 'op', 'subclass', 'pre', 'post')}
+                                     'events', 'op', 'subclass', 'pre', 'post', 'ops', 'n')}
 
 
 def _raised(o):
@@ -1710,6 +1812,8 @@ def nontrivial(case, verdict):
         return len(impl.get('events', [])) >= 2 or isinstance(impl.get('init'), dict)
     if case.get('kind') == 'args':
         return True
+    if case.get('kind') == 'events':
+        return any('raised' in o for o in impl.get('events', [])) or len(case['ops']) >= 2
     if case.get('twin'):
         return True
     if case.get('kind') == 'reuse':
@@ -1729,6 +1833,7 @@ def focus(disagreements, facts_changed):
         f['reuse'] = True
         f['twins'] = True
         f['streams'] = True
+        f['events'] = True
     for c, _ in disagreements or []:
         if c.get('kind') == 'streams':
             f['streams'] = True
@@ -1752,6 +1857,7 @@ def focus_changed(changed_funcs):
     if any(k.startswith('glom/streaming.py') for k in changed_funcs or []):
         f['twins'] = True
         f['streams'] = True
+        f['events'] = True
         f['sentinel'] = True
         f['reuse'] = True
     return f
@@ -1819,6 +1925,18 @@ def shrink_streams(case):
 
 
 def shrink(case):
+    if case.get('kind') == 'events':
+        base = {k: v for k, v in case.items() if not k.startswith('impl')}
+        for i in range(len(case['ops'])):
+            yield dict(base, ops=case['ops'][:i] + case['ops'][i + 1:])
+        items = case['src']['fin']
+        for i in range(len(items)):
+            yield dict(base, src=dict(case['src'], fin=items[:i] + items[i + 1:]), n=case['n'] - 1)
+        if case['src'].get('tail'):
+            yield dict(base, src=dict(case['src'], tail=None))
+        if case['sub'] != 'T':
+            yield dict(base, sub='T')
+        return
     if case.get('kind') == 'args':
         base = {k: v for k, v in case.items() if not k.startswith('impl')}
         if case['pre']:
